@@ -158,7 +158,11 @@ func vpH_c04_positions() {
 		unk.Contents = um
 		p.RemainingFields = map[string]any{vpS("pk"): vpS("pv")}
 	}
-	p.Steps = Steps{cmdStep, grp, wait, input, trig, unk}
+	unkS := &UnknownStep{Contents: "plain"} // an unrecognised step written as a bare string
+	if which == 7 {
+		unkS.Contents = vpS("us")
+	}
+	p.Steps = Steps{cmdStep, grp, wait, input, trig, unk, unkS}
 	envMap := map[string]string{"A": "x"}
 	prefer := false
 	if which == 8 { // the pipeline's own env block, under both precedence settings, its name defined by the caller or not
@@ -171,7 +175,7 @@ func vpH_c04_positions() {
 
 	err := p.Interpolate(env.New(env.FromMap(envMap)), prefer)
 	vpAssert(err == nil, "interpolating a well-formed pipeline succeeds")
-	vpAssert(len(p.Steps) == 6 && p.Steps[0] == Step(cmdStep) && p.Steps[1] == Step(grp), "step list shape unchanged")
+	vpAssert(len(p.Steps) == 7 && p.Steps[0] == Step(cmdStep) && p.Steps[1] == Step(grp), "step list shape unchanged")
 	vpAssert(cmdStep.Command == vpT("cmd"), "command is the single-pass expansion")
 
 	switch which {
@@ -251,6 +255,7 @@ func vpH_c04_positions() {
 		ull, ok := ul.([]any)
 		vpAssert(ok && len(ull) == 1 && vpAnyIs(ull[0], vpT("ui")), "unknown step nested list is the single-pass expansion")
 		vpAssert(len(p.RemainingFields) == 1 && vpAnyIs(p.RemainingFields[vpT("pk")], vpT("pv")), "top-level extras are the single-pass expansion")
+		vpAssert(vpAnyIs(unkS.Contents, vpT("us")), "an unknown step written as a bare string is the single-pass expansion")
 	case 8:
 		v, ok := p.Env.Get(vpT("pek"))
 		vpAssert(p.Env.Len() == 2 && ok, "env block name is the single-pass expansion, whoever wins precedence")
